@@ -104,6 +104,29 @@ static bool json_get_string(std::string const &js, std::string const &key, std::
   return false;
 }
 
+// text of an object member (balanced braces, strings skipped)
+static std::string json_get_object(std::string const &js, std::string const &key)
+{
+  size_t p = js.find("\"" + key + "\":");
+  if (p == std::string::npos) return "{}";
+  p = js.find('{', p);
+  if (p == std::string::npos) return "{}";
+  int depth = 0;
+  bool instr = false;
+  for (size_t i = p; i < js.size(); i++) {
+    char c = js[i];
+    if (instr) {
+      if (c == '\\') i++;
+      else if (c == '"') instr = false;
+      continue;
+    }
+    if (c == '"') instr = true;
+    else if (c == '{') depth++;
+    else if (c == '}') { if (--depth == 0) return js.substr(p, i - p + 1); }
+  }
+  return "{}";
+}
+
 // ------------------------------------------------------------------------------------------------
 // the engine-side system: deca-alanine, 104 atoms, 5 frames of the repository's test trajectory
 // ------------------------------------------------------------------------------------------------
@@ -535,6 +558,20 @@ static void report_dead(Result &r, std::string const &part, std::string const &c
   } else {
     std::string key = death_key(ei, err);
     auto it = g_sigcache.find(key);
+    // resolved sites are shared between the workers through small files in the scratch directory
+    char cname[64];
+    snprintf(cname, sizeof(cname), "/sigcache_%016llx", (unsigned long long) fnv(key));
+    std::string const cfile = g_scratch + cname;
+    if (it == g_sigcache.end()) {
+      std::string cached;
+      size_t nl;
+      if (read_file(cfile, cached) && cached.size() > 6 && (nl = cached.find('\n')) != std::string::npos && cached.compare(cached.size() - 5, 5, "\nEND\n") == 0) {
+        SigInfo si;
+        si.kind = cached.substr(0, nl);
+        si.head = cached.substr(nl + 1, cached.size() - nl - 1 - 5);
+        it = g_sigcache.insert(std::make_pair(key, si)).first;
+      }
+    }
     if (it == g_sigcache.end()) {
       std::string serr, w0, frames;
       SigInfo si;
@@ -553,6 +590,13 @@ static void report_dead(Result &r, std::string const &part, std::string const &c
       }
       r.count(part + "_distinct_death_sites_symbolized");
       it = g_sigcache.insert(std::make_pair(key, si)).first;
+      std::string tmp = cfile + "." + std::to_string((long) getpid());
+      FILE *cf = fopen(tmp.c_str(), "w");
+      if (cf) {
+        fprintf(cf, "%s\n%s\nEND\n", si.kind.c_str(), si.head.c_str());
+        fclose(cf);
+        rename(tmp.c_str(), cfile.c_str());
+      }
     }
     sig = "C09:total:" + it->second.kind;
     head = it->second.head;
@@ -1291,9 +1335,20 @@ static int mode_total(Args &args, Result &total)
     g_outprefix = scratch + "/w" + std::to_string(shard) + "_out";
     g_errfile = scratch + "/w" + std::to_string(shard) + ".stderr";
     if (chdir(g_corpus_dir.c_str()) != 0) { fprintf(stderr, "HARNESS-ERROR: chdir\n"); _exit(2); }
-    // interleaved assignment: case i belongs to shard i % nshards
+    // token strings (distinct by construction): case i belongs to shard i % nshards.  Byte mutations: many files share
+    // their first lines, so truncations and mutations there give the same text more than once; each distinct text is run
+    // once, by the shard its hash selects (every worker sees the same sequence, so the choice is deterministic)
     std::vector<unsigned long> mine;
-    for (unsigned long i = shard; i < ncases; i += nshards) mine.push_back(i);
+    for (unsigned long i = shard; i < nstrings; i += nshards) mine.push_back(i);
+    {
+      std::set<uint64_t> seen_text;
+      std::string o;
+      for (unsigned long j = 0; j < nmut; j++) {
+        uint64_t h = fnv(gen_mut(j, o));
+        if (!seen_text.insert(h).second) { if (shard == 0) r.count("total_byte_mutations_same_text_as_earlier_case"); continue; }
+        if ((int) (h % (uint64_t) nshards) == shard) mine.push_back(nstrings + j);
+      }
+    }
     size_t const B = 20000;
     for (size_t b0 = 0; b0 < mine.size(); b0 += B) {
       size_t nb = std::min(B, mine.size() - b0);
@@ -1535,7 +1590,6 @@ static int mode_strict(Args &args, Result &total)
   std::vector<std::string> excluded;
   std::string err;
   if (!load_corpus(C, excluded, err)) { fprintf(stderr, "HARNESS-ERROR: %s\n", err.c_str()); return 2; }
-  for (auto &e : excluded) total.notes.push_back("corpus file left out: " + e);
   std::string scratch = args.kv["scratch"];
   g_outprefix = scratch + "/main_out";
   g_errfile = scratch + "/main.stderr";
@@ -1723,7 +1777,6 @@ static int mode_layout(Args &args, Result &total)
   std::vector<std::string> excluded;
   std::string err;
   if (!load_corpus(C, excluded, err)) { fprintf(stderr, "HARNESS-ERROR: %s\n", err.c_str()); return 2; }
-  for (auto &e : excluded) total.notes.push_back("corpus file left out: " + e);
   std::vector<Style> S = all_styles(th);
   std::string scratch = args.kv["scratch"];
   total.notes.push_back(std::to_string(S.size()) + " rewrites per file");
@@ -1859,7 +1912,7 @@ static int mode_replay(Args &args, Result &total, std::string const &mode)
       fflush(stdout);
     }, 60, slots);
     if (slots[0].status != 1) printf("child died: %d\n", slots[0].exitinfo);
-    if (slots[0].status != 1 || !slots[0].aux) total.violation(sig.size() ? sig : "C09:layout:replay", "{\"replayed\":true}");
+    if (slots[0].status != 1 || !slots[0].aux) total.violation(sig.size() ? sig : "C09:layout:replay", json_get_object(js, "case"));
     return 0;
   }
   int ei = 0;
@@ -1884,9 +1937,9 @@ static int mode_replay(Args &args, Result &total, std::string const &mode)
   if (slots[0].status != 1) {
     printf("child ended abnormally (%d): %s\n%s\n", slots[0].exitinfo, death_kind(slots[0].exitinfo, bad.size() ? bad[0] : "").c_str(),
            bad.size() ? bad[0].substr(0, 3000).c_str() : "");
-    total.violation(sig.size() ? sig : "C09:total:replay", "{\"replayed\":true}");
+    total.violation(sig.size() ? sig : "C09:total:replay", json_get_object(js, "case"));
   } else if (slots[0].accepted && (mode == "strict" || sig.find(":strict:") != std::string::npos)) {
-    total.violation(sig.size() ? sig : "C09:strict:replay", "{\"replayed\":true}");
+    total.violation(sig.size() ? sig : "C09:strict:replay", json_get_object(js, "case"));
   }
   return 0;
 }
